@@ -11,6 +11,7 @@ package checks
 import (
 	"encoding/json"
 	"fmt"
+	"hash/fnv"
 	"sort"
 	"strings"
 
@@ -25,10 +26,10 @@ type histOp struct {
 }
 
 type histSpec struct {
-	ID       string
-	Prelude  []zn.Stmt
-	Imports  []zn.Import
-	Init     []histOp // alternative initial ops (history always starts with one)
+	ID      string
+	Prelude []zn.Stmt
+	Imports []zn.Import
+	Init    []histOp // alternative initial ops (history always starts with one)
 	// Ops lists the operations offered in a state (given declared names and the reference state).
 	Ops func(declared []string, rf *zn.Ref, depth int) []histOp
 	// Observe builds the observation statements for the declared names.
@@ -45,9 +46,15 @@ type histSpec struct {
 }
 
 type histCase struct {
-	Part    string   `json:"part"`
-	Labels  []string `json:"history"`
-	Source  string   `json:"source"`
+	Part   string   `json:"part"`
+	Labels []string `json:"history"`
+	Source string   `json:"source"`
+}
+
+func histHash(k string) uint64 {
+	h := fnv.New64a()
+	h.Write([]byte(k))
+	return h.Sum64()
 }
 
 type histNode struct {
@@ -213,7 +220,9 @@ func (sp *histSpec) compare(part string, prog *zn.Program, src string, labels []
 
 // explore runs the BFS to the given history length.
 func (sp *histSpec) explore(c *mc.Ctx, maxLen int) {
-	seen := map[string]bool{}
+	// states are remembered by a 64-bit hash of their canonical key (the keys are hundreds of
+	// bytes each and every worker holds the whole set)
+	seen := map[uint64]bool{}
 	var frontier []histNode
 	var states, trans, probes, terminal, opens int64
 	tIdx := int64(0)
@@ -236,6 +245,7 @@ func (sp *histSpec) explore(c *mc.Ctx, maxLen int) {
 			if f != nil {
 				c.Fail(*f)
 			}
+			defer c.Idle() // what this worker computes until its next own case is harness work, not the case
 			if f == nil && !open && sp.Blind && part == "op" && len(hist) >= 2 {
 				// the same history observed only at its end
 				var labels []string
@@ -274,8 +284,8 @@ func (sp *histSpec) explore(c *mc.Ctx, maxLen int) {
 			continue
 		}
 		k := histStateKey(rf, in.Declares)
-		if !seen[k] {
-			seen[k] = true
+		if !seen[histHash(k)] {
+			seen[histHash(k)] = true
 			states++
 			frontier = append(frontier, histNode{hist: []histOp{in}, declared: in.Declares})
 		}
@@ -318,11 +328,14 @@ func (sp *histSpec) explore(c *mc.Ctx, maxLen int) {
 						probes++
 					}
 				}
-				if seen[k] {
+				if seen[histHash(k)] {
 					continue
 				}
-				seen[k] = true
+				seen[histHash(k)] = true
 				states++
+				if depth == maxLen-1 {
+					continue // the last level has no successors: its histories are not kept
+				}
 				next = append(next, histNode{hist: h, declared: decl})
 				if c.WantSample() && c.Shard == 0 && states%997 == 5 {
 					var labels []string
